@@ -264,6 +264,31 @@ def eps_heavy(n, maxeps, idx0=0):
                         idx += 1
 
 
+def push_family():
+    """PDAs (3 states, one letter, two stack symbols): one epsilon no-op move, two push moves on the letter that enter
+    the same state with different symbols, one pop move on the letter; q0 = s0, |F| = 1.  The shape in which a
+    backward reconstruction can pick a predecessor that could not have produced the configuration."""
+    n, k, g = 3, 1, 2
+    E, X = k, g
+    idx = 0
+    for p in range(n):
+        for p2 in range(n):
+            noop = (p, E, X, p2, X)
+            for a1 in range(n):
+                for a2 in range(n):
+                    for q in range(n):
+                        for (v1, v2) in ((0, 1), (1, 0)):
+                            pu1 = (a1, 0, X, q, v1)
+                            pu2 = (a2, 0, X, q, v2)
+                            for r in range(n):
+                                for u in range(g):
+                                    for r2 in range(n):
+                                        pop = (r, 0, u, r2, X)
+                                        for f in range(n):
+                                            yield idx, ('pda', n, k, g, tuple(sorted({noop, pu1, pu2, pop})), 0, 1 << f)
+                                            idx += 1
+
+
 def t_space(acc, kind, space, L, depth, shard, nshard, stride=1, offset=0, opt=None):
     space = tup(space)
     if kind == 'dfa':
@@ -271,7 +296,7 @@ def t_space(acc, kind, space, L, depth, shard, nshard, stride=1, offset=0, opt=N
     elif kind == 'nfa':
         gen = eps_heavy(*space[1:]) if space[0] == 'epsheavy' else (spaces.nfa_chains(space[1]) if space[0] == 'chain' else spaces.nfas(*space))
     elif kind == 'pda':
-        gen = pda.pdas(*space)
+        gen = push_family() if space[0] == 'pushfamily' else pda.pdas(*space)
     else:
         gen = cfg.cnf3(*space)
     for idx, spec in gen:
@@ -312,9 +337,11 @@ def plan(tier, seed):
     add('pda', [2, 1, 1, 2], 3, d, 8)
     add('pda', [2, 1, 1, 3], 3, 1, 32, 8 if q else 1)
     add('pda', [2, 2, 1, 2], 2, 1, 16, 4 if q else 1)
+    add('pda', ['pushfamily'], 2, 1, 32, 2 if q else 1)
+    add('pda', [2, 1, 2, 2], 2, 1, 8, 2 if q else 1)
     add('cfg', [4 if q else 5], 4, 1, 32)
     return {'tasks': tasks,
-            'bounds': {'spaces': 'DFA(n<=2,k<=2), DFA(3,1) x accepted words <= 4, DFA(3,2){}; NFA(1,1), NFA(2,1) all, NFA(2,2,{}), NFA(3,1,<=4){}, eps-chains 4..5, 4-state and 3-state epsilon-heavy families{} x words <= 1..3; PDA(1,1,1,<=3), PDA(2,1,1,<=2), PDA(2,1,1,3){}, PDA(2,2,1,<=2){} x words <= 3 at closure limit {}; CNF(3) with <= {} rules x generated words 1..4 x leftmost/rightmost/any'.format(
+            'bounds': {'spaces': 'DFA(n<=2,k<=2), DFA(3,1) x accepted words <= 4, DFA(3,2){}; NFA(1,1), NFA(2,1) all, NFA(2,2,{}), NFA(3,1,<=4){}, eps-chains 4..5, 4-state and 3-state epsilon-heavy families{} x words <= 1..3; PDA(1,1,1,<=3), PDA(2,1,1,<=2), PDA(2,1,1,3){}, PDA(2,2,1,<=2){}, PDA(2,1,2,<=2), push family (3 states, two push moves with different symbols into one state, 26 244 automata, stride 1/2 in quick) x words <= 3 at closure limit {}; CNF(3) with <= {} rules x generated words 1..4 x leftmost/rightmost/any'.format(
                 ' stride 1/4' if q else '', '<=4' if q else 'all', ' stride 1/4' if q else '', ' stride 1/16' if q else ' stride 1/2', ' stride 1/8' if q else '', ' stride 1/4' if q else '', PDA_LIMIT, 4 if q else 5),
                        'deviations': d},
             'exhaustive': True,
